@@ -221,7 +221,8 @@ def run_rel(unit, want_trace=False):
     if want_trace:
         res['traces'] = traces
         return res
-    json.dump(res, open(resf, 'w'))
+    if all(o['status'] in ('SUCCESS', 'FAILURE') for o in obl):
+        json.dump(res, open(resf, 'w'))
     try:
         os.remove(os.path.join(udir, 'a.%d.gb' % os.getpid()))
     except OSError:
